@@ -7,3 +7,5 @@ package go_clipper2
 // unchanged apart from these calls compiling to nothing.
 
 func verifSplitDiscard(ip, a, b Point64, area1, area2 float64) {}
+
+func verifMicroSplice(prev, spliced, at Point64) {}
